@@ -6,6 +6,7 @@ CONSTANTS
   KMaxLinks = 40
   TolerateEEXIST = TRUE
   MaxAttack = 0
+  KeepDotInStack = FALSE
 CONSTRAINT Progress
 INVARIANTS HandleIsResolution OnlyNewDirs MutationsInside
 POSTCONDITION Accepted
